@@ -123,6 +123,24 @@ seed={
 'C11-g-2':('lazy `scan`: per-arm poll inside a `filter_map` closure, `check(..).ok()?` (cancellation makes the arm "not match")',True,''),
 'C19-g-1':('`--global` names validated as ASCII identifiers',False,'declared globals with non-ASCII names; undeclared globals named `build.id`, `a-b`, `x y`, `1st`, `π`'),
 'C19-g-2':('sources above 256 KiB are executed lazily without `--lazy`',False,'a program that fails strictly and succeeds lazily, on sources of 60 B to 1.2 MB'),
+'C04-h-1':('strict: inherited value cached per (node, name); `set` on the ancestor does not invalidate it',False,'containers with mutable variables, the root re-assigned between two rounds of inherited reads'),
+'C04-h-2':('lazy: the inherit walk stops at an `ERROR` ancestor',True,''),
+'C04-h-3':('checker: comprehension element variables rejected as scopes (`[ y.tag for y in @ys ]`)',False,'list readers that also read through list and set comprehensions; a loader that rejects a resolvable schema program is a violation (was a harness error)'),
+'C08-h-1':('lazy: a `#null` attribute value is skipped if the attribute exists (asymmetric tolerance)',False,'same-shape pair putting `#null` and a value on one attribute of one node'),
+'C08-h-2':('lazy: statements whose operands are literals, captures or globals are applied immediately',False,'graph-node globals on a pre-seeded graph; edge and edge attribute in different same-shape stanzas'),
+'C08-h-3':('`Attributes::add` extends list/set values instead of conflicting (element order follows stanza order)',False,'same-shape pair putting two different lists on one attribute'),
+'C09-h-1':('attribute names equal to the configured debug attribute names are rejected',False,'— missed: needs a model of the debug attributes (steps run with them are judged by the invariants only)'),
+'C09-h-2':('lazy: `attr` on an edge requires an `edge` statement in the same execution',True,''),
+'C09-h-3':('list values compared ignoring order',False,'near-miss conflicts: same elements in another order or collection kind, same text as another type, trailing blank'),
+'C11-h-1':('lazy: `debug_assert!` on the shared parameter buffer fires when a later argument is cancelled',False,'the library is built with debug assertions and overflow checks'),
+'C11-h-2':('lazy `scan`: the cancellation error is re-created from the poll label',False,'a third of the cases use a flag that signals with its own error value, which must come back'),
+'C11-h-3':('strict: a `scan` nested in a scan arm loses its per-iteration poll',False,'template: scan inside a scan arm'),
+'C12-h-1':('cancellation polls throttled 1:32 by a process-wide counter',True,''),
+'C12-h-2':('"did you mean" hint for undefined functions chosen by `min_by_key` over a `HashMap`',False,'undefined function names one edit away from two library functions'),
+'C12-h-3':('`named-child-index` remembers sibling positions by node id in a `thread_local`',False,'inputs applying every syntax function to every statement and identifier; histories in which two trees take over each other\'s memory; coalescing first-fit layout policy'),
+'C19-h-1':('string values of `--global` wrapped in a list for `*`/`+` globals',True,''),
+'C19-h-2':('`--output -` means stdout',False,'output file named `-`'),
+'C19-h-3':('a leading byte-order mark is stripped from both input files',False,'files starting with a byte-order mark'),
 'C19-a-1':('`--output` file opened without truncation',True,''),
 'C19-a-2':('parse-error discovery skips MISSING anonymous tokens',False,'MISSING-token-only syntax faults in sources'),
 'C19-b-1':('`--global` values split at commas',False,'global values with commas, option-like and quoted values'),
@@ -139,7 +157,7 @@ for k in sorted(mut):
 n=len(seed); first=sum(1 for v in seed.values() if v[1]); now=sum(1 for k in seed if status.get(f'seeded/{k}/patch.diff')=='caught')
 text=f'''### 10.3 Seeded changes (written by independent sub-agents) and my own mutants
 
-{n} changes were written in seven waves by sub-agents that were given only the text of one
+{n} changes were written in eight waves by sub-agents that were given only the text of one
 property and a scratch worktree (later waves: also one-line descriptions of the
 ideas already explored and a focus area, to force different mechanisms).
 Every change compiles and passes the 162 tests + doctest; each has a demonstration that fails
@@ -151,15 +169,15 @@ change arrived; "now" is `./sensitivity.sh` on the final checks (quick tier, def
 
 {first} of {n} were caught at the first attempt; {now-first} more after the checks were
 strengthened as listed (workload and oracle extensions, new seams and environment
-dimensions), without loosening anything; {n-now} remain missed (C12-b-2: blind spot, 10.4; C12-f-3: see its row).
+dimensions), without loosening anything; {n-now} remain missed (C12-b-2: blind spot, 10.4; C12-f-3 and C09-h-1: see their rows).
 
 My own mutants (`/verif/mutants/`, all compile and pass the test-suite; the CLI ones
 trivially, since the suite does not build the CLI):
 
 '''+"\n".join(out2)+'''
 
-**Specificity.** 39 property-preserving changes (`/verif/benign/`: 9 of mine, 30 written by
-six further sub-agents who were asked for legitimate refactorings that change what the
+**Specificity.** 49 property-preserving changes (`/verif/benign/`: 9 of mine, 40 written by
+eight further sub-agents who were asked for legitimate refactorings that change what the
 properties do not constrain — renamed, added and moved polls; reworded errors and fuller
 context chains; other deterministic choices among simultaneous errors; BTreeMaps for
 HashMaps; lazy matching stanza by stanza (other node numbering); fail-fast duplicate
@@ -169,7 +187,10 @@ the DSL file; edges stored in creation order; and, for the synchronisation seams
 shared state: a process-wide regex cache filled under one lock, per-file statistics behind a
 `Mutex` that is **held while caller functions and the flag are called**, `OnceLock` tables,
 thread-local leased cursors and buffers, clock reads and atomic counters used for log lines
-only) were run through all six checks with `./specificity.sh`. One alarm was raised, by
+only; in the last wave also correct versions of optimisations that had been seeded as
+broken: an ancestor memo keyed by (node, name), sorted-vector attributes, bulk edge insertion
+that keeps existing attributes, many more polls with new labels, phase-specific exit codes,
+a parser that skips a byte-order mark) were run through all six checks with `./specificity.sh`. One alarm was raised, by
 `agent-g2-4` (edges in creation order), and was a false alarm of the C09 oracle; it was
 corrected (10.2, item 7). Final run: no alarm.
 
